@@ -214,10 +214,24 @@ func VH_C17_Bytes() {
 	vhSetThreshold(256)
 	storage := vhNewBasicStorage()
 	addr := vhAddr(1)
-	n := vhChoose("n", vhParam("n", 6)+1)
-	data := make([]byte, n)
-	for i := range data {
-		data[i] = vhU8("byte")
+	// short inputs with symbolic bytes, or long inputs (concrete bytes) around
+	// the lengths where the caller's size estimate and the real encoded size
+	// fall on different sides of the one-slab limit
+	var data []byte
+	n := 0
+	if vhChoose("long", 2) == 0 {
+		n = vhChoose("n", vhParam("n", 6)+1)
+		data = make([]byte, n)
+		for i := range data {
+			data[i] = vhU8("byte")
+		}
+	} else {
+		longs := []int{62, 63, 64, 94, 95, 126}
+		n = longs[vhChoose("longn", len(longs))]
+		data = make([]byte, n)
+		for i := range data {
+			data[i] = byte(i * 7)
+		}
 	}
 	est := vhRange32("estimate", 0, 200) // 0 = default; large estimates force the fallback path
 	a, err := ByteSliceToByteArray[vByte](storage, addr, vTypeInfo{id: 42}, data, est)
